@@ -6,6 +6,13 @@ pub struct Buffer<T> {
     slab: Slab<Slot<T>>,
 }
 
+#[cfg(feature = "verif-hooks")]
+impl<T> Buffer<T> {
+    pub(super) fn verif_len(&self) -> usize {
+        self.slab.len()
+    }
+}
+
 /// A sequence of frames in a `Buffer`
 #[derive(Debug)]
 pub struct Deque {
